@@ -423,6 +423,30 @@ func c06Run(c *mc.Ctx) {
 	for r := 0; r < 4; r++ {
 		c.Count(fmt.Sprintf("padding-residue-%d", r), resid[r])
 	}
+	// per-Read deviations on the stream-backed decode of small frames
+	bd := 1
+	if th {
+		bd = 2
+	}
+	var devN int64
+	for si, sm := range strMaps {
+		if si%3 != 0 || !c.Mine() {
+			continue
+		}
+		k := c06Case{Flags: 2, Seq: 5, Str: sm, Int: intMaps[si%len(intMaps)], LongInt: -1, Writer: "default", Payload: 3, Stream: true, Env: EnvCfg{Chunk: 5, AfterErr: 1, ErrWithLast: si%2 == 0}}
+		if len(sm) > 0 {
+			big := false
+			for kk, vv := range sm {
+				big = big || len(kk)+len(vv) > 40
+			}
+			if big {
+				continue
+			}
+		}
+		n, _ := exploreEnv(c, bd, func() { c06One(c, k) })
+		devN += n
+	}
+	c.Count("deviation-executions", devN)
 	c.Sample("params", c06Case{Flags: 0x0102, Seq: 7, Proto: 4, Str: map[string]string{ttheader.GDPRToken: "abc", "": "v"}, Int: map[uint16]string{0xffff: ""}, Writer: "bytes", Payload: 4096})
 	c.Done(fmt.Sprintf("all string-keyed maps (%d) x all int-keyed maps (%d) with <= %d entries over the key/value alphabets (incl. empty key, ACL-token key, 300-byte key, 255/256-byte values) x 3 writers x payloads, stream-backed decode under %d fragmentation policies", len(strMaps), len(intMaps), maxE, len(envs)))
 	// (3) limit sweep: the unpadded header-info size takes every value in 65500..65545
